@@ -51,6 +51,10 @@ CLAIMED = {
    text="Seeded twin comparison: (a) one generated program rendered under two layouts (monotone renumbering with seeded gaps, inserted REM / ':'-only lines, multi-statement lines split into consecutive lines, unreachable lines appended) is run on two real runtimes under different slice schedules and the transcripts and final variables must agree once reported line numbers are mapped back to the originating statement; (b) a direct statement list typed into a fresh runtime is compared with the same list typed with small / large / compile-error-carrying resident programs after other direct lines (failed, looping, syntactically wrong), and with the one-line program `10 <list>` + RUN.",
    note="Trusted: the layout transformations preserve meaning (targets are AST indices, re-rendered); TRON excluded; DATA lines never moved; direct lists carry no line references and no READ.",
    tech="deterministic simulation: seeded layout configurations and resident-program / direct-line histories, twin-runtime differential oracle under different slice schedules"),
+ "C14": dict(cat="exploration", ref="DESIGN.md section 5 C14",
+   text="RENUM as a transaction on the shared program store: a generated link-clean program (every referencing statement form incl. ON...GOSUB and, on unreachable lines, RUN n and LIST / DELETE in all range forms and bare; decoy numbers in PRINT, DATA, strings, remarks; non-ASCII text in front of references; line 0; lines up to 65529) is typed into the real runtime, a get_listing() snapshot is optionally held across, RENUM is typed in one of its eight argument forms with valid, overflowing, reordering, step-0 and out-of-range operands (also as a program statement, and on a program with a dangling reference). Verdict is the property's disjunction: (error reported and listing byte-identical) or (no error and listing equals the model renumbering of the generator's AST); on success the original program (fresh twin) and the renumbered one are run, entropy aligned, and transcripts and final variables must agree modulo the line map; a held snapshot must keep rendering the old text.",
+   note="Trusted: the AST renderer and the 25-line model renumbering. A refused triple that the manual makes valid is counted, not reported (the property allows failing).",
+   tech="deterministic simulation: seeded RENUM transactions with failing argument triples and live-snapshot fault, model renumbering + twin-runtime behavioural equivalence"),
 }
 
 NOT_APPLICABLE = {
